@@ -3,6 +3,7 @@ from engine.driver import poly as P
 from engine.driver.core import Ob, eq, eqs
 from engine.driver.encode import Constraint
 from spec import catalogue as cat
+from spec.treeutil import cleared, is_coord, subst_affine
 
 ID = "C02"
 HARNESS = "C02_dynamics.cpp"
@@ -46,46 +47,6 @@ def free_sets(inst, tr, tier, rng):
     if inst.get("composed"):
         return [[n for n in fs[0] if not is_coord(n)]]
     return fs
-
-
-def is_coord(n):
-    return n.startswith("q") and n[1:].isdigit()
-
-
-def subst_affine(R, p, sub):
-    """p[x_j := sub[x_j]] for a polynomial p that is affine in the variables x_j (checked)"""
-    coef, rest = {}, {}
-    for m, c in p.items():
-        hit = [(v, e) for (v, e) in m if v in sub]
-        if not hit:
-            rest[m] = c
-            continue
-        if len(hit) != 1 or hit[0][1] != 1:
-            raise RuntimeError("polynomial is not affine in the substituted inputs")
-        v = hit[0][0]
-        coef.setdefault(v, {})[tuple(x for x in m if x[0] != v)] = c
-    out = rest
-    for v, cp in coef.items():
-        out = P.add(out, R.mul(cp, sub[v]))
-    return out
-
-
-def cleared(enc, name, pairs, twin=None):
-    """conjunction of equalities l = r. Denominators (hinge-inertia inverses, quaternion norms) are cleared exactly in the
-    encoder (l - r = 0 <=> cleared = 0 given I*den = 1 for every inverse variable), so that the solver sees no inverse variable."""
-    R = enc.ring
-    goal = []
-    for i, (l, r) in enumerate(pairs):
-        d = P.sub(l, r)
-        if any(R.kind[v] == "inv" for v in R.vars_of(d)):
-            d = enc.clear_inverses(d)[0]
-        goal.append(Constraint(1, d, "%s[%d]" % (name, i)))
-    if twin is None:
-        for l, r in pairs:
-            if r:
-                twin = [Constraint(1, P.sub(l, P.scale(r, 2)), name + " [twin: lhs = 2 rhs]")]
-                break
-    return Ob(name, goal, (), twin)
 
 
 def obligations(enc, inst, tr):
